@@ -19,7 +19,15 @@ var opts = gen.RichOpts{Malformed: true, Oversized: true, Copy: true, Auth: true
 
 func genA(t *rapid.T) CaseA {
 	c := CaseA{History: gen.Rich(t, opts)}
+	c.SSLFirst = rapid.IntRange(0, 3).Draw(t, "ssl-first") == 0
+	if c.SSLFirst {
+		c.Cfg.TLS = rapid.SampledFrom([]string{"", "empty"}).Draw(t, "tls-config")
+	}
 	total := len(play.StartupBytes(c.History, false))
+	if c.SSLFirst {
+		total += 8
+		c.Cuts = append(c.Cuts, []int{8}, []int{rapid.IntRange(1, 16).Draw(t, "negotiation-cut")})
+	}
 	var bounds []int
 	for _, m := range c.Msgs {
 		bounds = append(bounds, total)
